@@ -578,3 +578,29 @@ for _n, _hi in ((1, 0xFFFF), (2, 0xFFFF), (3, 0xFFFF), (8, 255), (15, 255)):
                       ('O-emu.inrange', _inrange),
                       ('O-emu.frame', 'memory.mem == old(memory.mem) and memory.calls == 0')],
              raises={'nfc.tag.tt3:Type3TagCommandError': ['not (%s)' % _inrange]})
+
+# ---------------------------------------------------------------- C03: which system a Type 3 Tag object talks to
+# read_from_ndef_service / write_to_ndef_service / format() are guarded by `self.sys == 0x12FC` only: the frame
+# proofs above hold for the NDEF system.  FelicaStandard.dump() walks every system of the card by polling(); when it
+# is done the object's idea of the selected system (self.sys) is the system of the IDm it holds - otherwise a
+# following format()/write goes into another system's blocks.  BOUNDED: a card with two systems whose service
+# search ends at index 0 (the area/service printing is not inspected).
+FSD = 'nfc.tag.tt3_sony:FelicaStandard'
+contract(FSD + '.request_system_code', 'C03', dict(self=Any()), name='C03/felica.request_system_code', assumed=True,
+         note='bounded: the card supports the command and lists two system codes',
+         raises={}, returns=Fixed([Int(0, 0xFFFF), Int(0, 0xFFFF)]))
+contract('nfc.tag.tt3:Type3Tag.polling', 'C03', dict(self=Any(), system_code=Any(), request_code=Any(), time_slots=Any()),
+         name='C03/felica.polling', assumed=True,
+         note='activates the given system: IDm and PMm of that system', raises={},
+         returns=Tup(Bytes(8, 8, mutable=True), Bytes(8, 8, mutable=True)))
+contract(FSD + '.search_service_code', 'C03', dict(self=Any(), service_index=Any()),
+         name='C03/felica.search_service_code', assumed=True, note='bounded: no area or service at index 0',
+         raises={}, returns=Const(None))
+contract(FSD + '.dump', 'C03',
+         dict(self=Obj(FSD, idm=Bytes(8, 8, mutable=True), pmm=Bytes(8, 8, mutable=True), sys=Const(0x12FC))),
+         name='C03/FelicaStandard.dump', bounded='bounded: two systems, no services listed',
+         use=['C03/felica.request_system_code', 'C03/felica.polling', 'C03/felica.search_service_code'],
+         ensures=[('O-system.selected', 'not was_called("C03/felica.polling") or '
+                                        '(self.sys == call_arg("C03/felica.polling", "system_code") and '
+                                        'self.idm == call_ret("C03/felica.polling")[0])')],
+         raises={})
